@@ -206,6 +206,12 @@ _INTS = (torch.int8, torch.int16, torch.int32, torch.int64, torch.uint8)
 
 def norm_scalar(v, dtype):
     """bring a scalar into the value set of dtype"""
+    if type(v).__name__ == "G":
+        if v.leaves.dtype != dtype:
+            with _disable_current_modes():
+                from .gtab import G
+                return G(v.sel, v.leaves.to(dtype))
+        return v
     if dtype.is_complex:
         if isinstance(v, S.Cx):
             if dtype == torch.complex64:
